@@ -23,7 +23,7 @@ func (c *clock) now() time.Time { return time.Unix(0, c.ns) }
 // use emits an implementation-only case: what was presented (facts), whether
 // it was accepted and with which payload, and auxiliary observations.
 func (r *run) use(group, note string, f Facts, ok bool, out []byte, crash string, pairs ...Pair) {
-	c := &Case{Stream: "usage-" + group, Op: "usage", Note: note, Facts: &f, Pairs: pairs}
+	c := &Case{Stream: "usage-" + group, Op: "usage", Note: note, Facts: &f, Pairs: pairs, History: r.hist}
 	c.Obs.Ok = ok
 	if ok && out != nil {
 		c.Obs.Out = hx16(out)
@@ -57,6 +57,8 @@ func (r *run) usage() {
 	r.stream("epochKeys", r.epochKeys)
 	r.stream("concurrentReuse", r.concurrentReuse)
 	r.stream("passRoles", r.passRoles)
+	r.stream("ownSigner", r.ownSigner)
+	r.stream("ownOthers", r.ownOthers)
 }
 
 // ---- one Signer for many calls ------------------------------------------------
